@@ -315,8 +315,17 @@ def aux_stage(ctx):
         else:
             fl = m.optimize().fluxes
         return auxcorr.pairs_cycle_free(m, fl)
-    mism = auxcorr.stage(ctx, [("loopless_solution", f_cf)], gen_spec, ctx.scale(60, 800))
-    return [{"kind": "solution", "spec": mm["spec"], "give_fluxes": g, "push": None, "interleave": None} for mm in mism[:6] for g in (True, False)]
+    def f_ll(make, spec, rng):
+        return auxcorr.pairs_loopless(make())
+    mism = auxcorr.stage(ctx, [("loopless_solution", f_cf), ("add_loopless", f_ll)], gen_spec, ctx.scale(60, 800))
+    cases = []
+    for mm in mism[:8]:
+        if mm["label"] == "add_loopless":
+            if len([r for r in mm["spec"]["rxns"] if not is_boundary(r)]) <= 5:
+                cases.append({"kind": "add_loopless", "spec": mm["spec"]})
+        else:
+            cases += [{"kind": "solution", "spec": mm["spec"], "give_fluxes": g, "push": None, "interleave": None} for g in (True, False)]
+    return cases
 
 
 def run(ctx):
